@@ -132,6 +132,21 @@ func Open(dir string, replicas, remotes []string, loaders []repository.ClockLoad
 	return w, nil
 }
 
+// Reopen closes and reopens the handle on one repository (a new process, as far as the repository
+// handle is concerned: nothing cached in memory survives).
+func (w *World) Reopen(name string) error {
+	if r := w.Repos[name]; r != nil {
+		_ = r.Close()
+	}
+	dir := filepath.Join(w.Dir, name)
+	repo, err := repository.OpenGoGitRepo(dir, Namespace, nil)
+	if err != nil {
+		return fmt.Errorf("reopen %s: %w", name, err)
+	}
+	w.Repos[name] = repo
+	return nil
+}
+
 func (w *World) Close() {
 	for _, r := range w.Repos {
 		_ = r.Close()
@@ -271,6 +286,23 @@ type BugView struct {
 }
 
 // ReadBug reads one bug from a replica and renders what the user would see.
+// ReaderNamespace is the local-storage namespace of the harness's own reading handles.
+const ReaderNamespace = "verif-reader"
+
+// ReadBugQuiet reads a bug of replica `name` the way ReadBug does, but through a handle of its own
+// that keeps its local storage (clocks!) under another namespace. bug.Read witnesses the times of
+// what it reads and writes the clock files: done through the replica's own handle, the harness's
+// observations would push the replica's clocks up to its local heads after every step and hide
+// defects in how git-bug itself keeps them (observer effect).
+func (w *World) ReadBugQuiet(name string, id entity.Id) BugView {
+	rd, err := repository.OpenGoGitRepo(filepath.Join(w.Dir, name), ReaderNamespace, nil)
+	if err != nil {
+		return BugView{Id: string(id), Err: "reader handle: " + err.Error()}
+	}
+	defer rd.Close()
+	return ReadBug(rd, id)
+}
+
 func ReadBug(repo repository.ClockedRepo, id entity.Id) BugView {
 	v := BugView{Id: string(id)}
 	b, err := bug.Read(repo, id)
